@@ -7,6 +7,7 @@ Exit status: 0 held (or only listed known findings), 1 violation, 2 machinery
 failure (never reported as a violation).
 """
 import hashlib
+import logging
 import json
 import multiprocessing
 import os
@@ -17,6 +18,7 @@ import traceback
 
 from . import tlc
 
+logging.disable(logging.CRITICAL)
 VERIF = tlc.VERIF
 EVID = os.path.join(VERIF, 'evidence')
 REPLAY = os.path.join(VERIF, 'work', 'replay')
@@ -151,7 +153,7 @@ class Check:
                 self.rejects.append((t, ('REJECT', 'judge reported unlisted finding ' + detail), module))
         groups = {}
         for t, v, module in self.rejects:
-            groups.setdefault((module, v[1]), []).append(t)
+            groups.setdefault((module, v[1].split(' @ ')[0]), []).append(t)
         for k, ((module, clause), ts) in enumerate(sorted(groups.items(), key=lambda kv: kv[0])):
             path = os.path.join(REPLAY, f'{self.pid}-{self.tier}-{self.seed}-{k}.json')
             with open(path, 'w') as f:
